@@ -3,8 +3,10 @@ import PEval.Model.Basic
 # Model of `perception_eval/common/threshold.py`  (property C15)
 
 `PyVal` is the fragment of Python values a threshold specification is built from: numbers (`int`
-/ `float`, carried as `Rat`), `bool` (a `numbers.Real` in Python: `isinstance(True, Real)`), `str`,
-`None` and `list`.  `setThresholds` follows `set_thresholds` and its four helpers branch by branch;
+/ `float` and every other `numbers.Real` such as `Fraction` or a numpy scalar, carried as `Rat`),
+`bool` (a `numbers.Real` in Python: `isinstance(True, Real)`), `str` (whatever its content: `"0.5"`
+is a `str`, not a number), `None`, `list`, and `other` for every remaining kind of object (`bytes`,
+`Decimal`, `complex`, arrays …), of which the code can only find out that it is neither.  `setThresholds` follows `set_thresholds` and its four helpers branch by branch;
 errors are the class name of the Python exception (`"ThresholdError"`, `"TypeError"`).
 -/
 namespace PEval.Threshold
@@ -16,6 +18,12 @@ inductive PyVal where
   | str (s : String)
   | none
   | list (xs : List PyVal)
+  /-- any other Python object that is neither a `numbers.Real`, a `list`, a `str` nor `None` and
+  has no `len()` / iteration: `decimal.Decimal`, `complex`, `numpy.bool_`, 0-dimensional arrays.
+  In *entry* positions (an item of a list, or a row) the code only ever asks `isinstance(t, Real)`
+  and `isinstance(t, list)` of a value, so there the constructor also stands for `bytes`,
+  `bytearray`, `tuple`, `dict` and `numpy` arrays of any dimension (the tag names the kind). -/
+  | other (tag : String)
   deriving Repr, Inhabited
 
 mutual
@@ -25,15 +33,17 @@ def PyVal.decEq : (a b : PyVal) → Decidable (a = b)
   | .bool p, .bool q => if h : p = q then isTrue (by rw [h]) else isFalse (by intro h'; cases h'; exact h rfl)
   | .str p, .str q => if h : p = q then isTrue (by rw [h]) else isFalse (by intro h'; cases h'; exact h rfl)
   | .none, .none => isTrue rfl
+  | .other p, .other q => if h : p = q then isTrue (by rw [h]) else isFalse (by intro h'; cases h'; exact h rfl)
   | .list xs, .list ys =>
     match PyVal.decEqList xs ys with
     | isTrue h => isTrue (by rw [h])
     | isFalse h => isFalse (by intro h'; cases h'; exact h rfl)
-  | .num _, .bool _ | .num _, .str _ | .num _, .none | .num _, .list _
-  | .bool _, .num _ | .bool _, .str _ | .bool _, .none | .bool _, .list _
-  | .str _, .num _ | .str _, .bool _ | .str _, .none | .str _, .list _
-  | .none, .num _ | .none, .bool _ | .none, .str _ | .none, .list _
-  | .list _, .num _ | .list _, .bool _ | .list _, .str _ | .list _, .none =>
+  | .num _, .bool _ | .num _, .str _ | .num _, .none | .num _, .list _ | .num _, .other _
+  | .bool _, .num _ | .bool _, .str _ | .bool _, .none | .bool _, .list _ | .bool _, .other _
+  | .str _, .num _ | .str _, .bool _ | .str _, .none | .str _, .list _ | .str _, .other _
+  | .none, .num _ | .none, .bool _ | .none, .str _ | .none, .list _ | .none, .other _
+  | .list _, .num _ | .list _, .bool _ | .list _, .str _ | .list _, .none | .list _, .other _
+  | .other _, .num _ | .other _, .bool _ | .other _, .str _ | .other _, .none | .other _, .list _ =>
     isFalse (by intro h; cases h)
 def PyVal.decEqList : (a b : List PyVal) → Decidable (a = b)
   | [], [] => isTrue rfl
@@ -70,6 +80,7 @@ def truthy : PyVal → Bool
   | .str s => s.length != 0
   | .none => false
   | .list xs => !xs.isEmpty
+  | .other _ => true   -- never consulted: the harness places opaque values at the top level only where truthiness is not asked
 
 /-- `len(t)` of a value already known to be a list (0 otherwise; never consulted otherwise) -/
 def lenOf : PyVal → Nat
@@ -94,7 +105,7 @@ def typeError {α} : Except Err α := .error "TypeError"
 def getThresholds (v : PyVal) (n : Nat) : Except Err PyVal :=
   match v with
   | .num _ | .bool _ => .ok (.list (List.replicate n v))     -- isinstance(threshold, Real)
-  | .none => typeError                                        -- len(None)
+  | .none | .other _ => typeError                            -- len(None), len(Decimal(..))
   | .str _ => thresholdError    -- "" is "empty"; the characters of a non-empty str are not Real
   | .list xs =>
     if xs.length == 0 then thresholdError                     -- Empty list is invalid
@@ -120,7 +131,7 @@ def checkThresholds (v : PyVal) (n : Nat) : Except Err PyVal :=
 def getNestedThresholds (v : PyVal) (n : Nat) : Except Err PyVal :=
   match v with
   | .num _ | .bool _ => .ok (.list [.list (List.replicate n v)])
-  | .none => typeError                                        -- len(None)
+  | .none | .other _ => typeError                            -- len(None), len(Decimal(..))
   | .str _ => thresholdError   -- "" is "empty"; threshold[0] of a str is a str: not Real, not a list
   | .list [] => thresholdError
   | .list (x :: xs) =>
@@ -134,7 +145,8 @@ def getNestedThresholds (v : PyVal) (n : Nat) : Except Err PyVal :=
       else if (x :: xs).any (fun t => lenOf t != n && lenOf t != 1) then thresholdError
       else .ok (.list ((x :: xs).map fun t => if lenOf t == 1 then mulVal t n else t))
 
-/-- `check_nested_thresholds(thresholds, num_elements)` -/
+/-- `check_nested_thresholds(thresholds, num_elements)` on an arbitrary value: iterating a number /
+`None` / an object without `__iter__` is a `TypeError`; the items of a `str` are `str`s. -/
 def checkNestedThresholds (v : PyVal) (n : Nat) : Except Err PyVal :=
   match v with
   | .list rows =>
@@ -142,6 +154,9 @@ def checkNestedThresholds (v : PyVal) (n : Nat) : Except Err PyVal :=
     else if rows.any (fun t => lenOf t == 0 || lenOf t != n) then thresholdError
     else if rows.any (fun t => (itemsOf t).any (fun x => !isReal x)) then thresholdError
     else .ok v
+  | .str s =>
+    if s.length != 0 then thresholdError        -- a character is not a list
+    else .ok v                                  -- nothing to iterate over
   | _ => typeError
 
 /-- `set_thresholds(thresholds, target_objects_num, nest)` -/
